@@ -8,6 +8,7 @@ must be identical.  Histories interleave edits with complete and abandoned
 observations.
 """
 import io
+import os
 import random
 
 import mido
@@ -62,6 +63,22 @@ def observe(mid, what, seed):
             b = io.BytesIO()
             mid.save(file=b)
             return b.getvalue().hex()
+        if what == 'save-to-path':
+            # path is reused by the edited file (it may hold an older, longer save); fresh for the twin
+            path = getattr(mid, '_vmon_path', None)
+            fresh = path is None
+            if fresh:
+                import tempfile
+                fd, path = tempfile.mkstemp(suffix='.mid', prefix='vmon-c16-')
+                os.close(fd)
+                os.remove(path)
+            try:
+                mid.save(path)
+                with open(path, 'rb') as f:
+                    return f.read().hex()
+            finally:
+                if fresh and os.path.exists(path):
+                    os.remove(path)
         if what == 'play':
             clock = FakeTime()
             orig = mf.time
@@ -260,7 +277,7 @@ def do_edit(rng, mid):
     return e
 
 
-OBS = ('iter', 'length', 'merged', 'save', 'play', 'repr')
+OBS = ('iter', 'length', 'merged', 'save', 'play', 'repr', 'save-to-path')
 
 
 def history(ctx, seed, maxsteps):
@@ -269,6 +286,17 @@ def history(ctx, seed, maxsteps):
     for _ in range(rng.choice((0, 1, 1, 2, 3))):
         mid.tracks.append(rand_track(rng))
     log = []
+    import tempfile
+    fd, own_path = tempfile.mkstemp(suffix='.mid', prefix='vmon-c16-own-')
+    os.close(fd)
+    try:
+        return _history(ctx, seed, maxsteps, rng, mid, log, own_path)
+    finally:
+        if os.path.exists(own_path):
+            os.remove(own_path)
+
+
+def _history(ctx, seed, maxsteps, rng, mid, log, own_path):
     if rng.random() < 0.3 and (mid.type != 0 or len(mid.tracks) == 1):
         # start from a file that was LOADED (whatever the reader remembers about a track must not
         # outlive an edit of that track)
@@ -276,6 +304,11 @@ def history(ctx, seed, maxsteps):
         mid.save(file=buf)
         mid = MidiFile(file=io.BytesIO(buf.getvalue()))
         log.append('start:loaded-from-bytes')
+    mid._vmon_path = own_path
+    # shadow copies of the two header fields, kept by the harness (a file whose header lives in
+    # state shared with other MidiFile objects would agree with its own fresh twin)
+    shadow = {'type': mid.type, 'tpb': mid.ticks_per_beat}
+    bystanders = []
     observed = False
     edited_after_obs = False
     nontrivial = False
@@ -285,6 +318,24 @@ def history(ctx, seed, maxsteps):
         r = rng.random()
         if r < 0.45:
             what = do_edit(rng, mid)
+            if what == 'mid.type=':
+                shadow['type'] = mid.type
+            elif what == 'mid.ticks_per_beat=':
+                shadow['tpb'] = mid.ticks_per_beat
+            if rng.random() < 0.3:
+                # an unrelated file comes to life / changes while this one exists
+                other = MidiFile(type=rng.choice((0, 1, 2)), ticks_per_beat=rng.choice((7, 24, 1000)))
+                other.tracks.append(rand_track(rng, 2))
+                if bystanders and rng.random() < 0.5:
+                    bystanders[-1].type, bystanders[-1].ticks_per_beat = 2, 31
+                bystanders.append(other)
+                if rng.random() < 0.3:
+                    try:
+                        b = io.BytesIO()
+                        MidiFile(type=1, ticks_per_beat=333).save(file=b)
+                        MidiFile(file=io.BytesIO(b.getvalue()))
+                    except Exception:
+                        pass
             log.append('edit:' + what)
             ctx.check('edit took effect', 'NO EFFECT' not in what, 'edit-without-effect', case, lambda: log[-3:])
             if observed:
@@ -296,6 +347,9 @@ def history(ctx, seed, maxsteps):
             observed = True
         else:
             what = rng.choice(OBS)
+            ctx.check("header fields are the file's own", (mid.type, mid.ticks_per_beat) == (shadow['type'], shadow['tpb']),
+                      'header-changed-behind-the-back', case, lambda: {'log': log[-6:], 'file': [mid.type, mid.ticks_per_beat],
+                                                                        'expected': [shadow['type'], shadow['tpb']]})
             got = observe(mid, what, f'{seed}:{i}')
             want = observe(twin_of(mid), what, f'{seed}:{i}')
             last_edit = next((x for x in reversed(log) if x.startswith('edit:')), 'edit:none')
